@@ -72,24 +72,24 @@ theorem C09_drop_src (b0 : CB) (d : Drain) (s : Sys) (hd : DrainInv b0 d s) (hf 
       Inv b' ∧ abs b' = (abs b0).take d.rs ++ (abs b0).drop d.re ∧ b'.cap = b0.cap ∧
       b'.start = b0.start ∧
       (∀ i, i < d.rs → b'.items (phys b0.start b0.cap i) = b0.items (phys b0.start b0.cap i)) := by
-  rw [tie_drain_drop d s (C10_forget_safe b0 d s hd).1 (DrainInv.rs_le_cap hd) (DrainInv.re_le_cap hd)]; exact C09_drop b0 d s hd hf
+  rw [tie_drain_drop d s (C10_forget_safe b0 d s hd).1 (DrainInv.rs_le_cap hd) (DrainInv.re_le_cap hd) hd.h4]; exact C09_drop b0 d s hd hf
 
 maybe theorem C01_drain_src (b0 : CB) (d : Drain) (s : Sys) (hd : DrainInv b0 d s) (hf : s.faults.drop = 0) :
     ∃ b', (Gen.Drain_drop d s).1 = .ok () ∧ (Gen.Drain_drop d s).2.buf = b' ∧ Inv b' ∧
       abs b' = (Spec.drain (abs b0) d.rs d.re).2 ∧ b'.cap = b0.cap := by
-  rw [tie_drain_drop d s (C10_forget_safe b0 d s hd).1 (DrainInv.rs_le_cap hd) (DrainInv.re_le_cap hd)]; exact C01_drain b0 d s hd hf
+  rw [tie_drain_drop d s (C10_forget_safe b0 d s hd).1 (DrainInv.rs_le_cap hd) (DrainInv.re_le_cap hd) hd.h4]; exact C01_drain b0 d s hd hf
 
 maybe theorem C05_drain_drop_src (b0 : CB) (d : Drain) (s : Sys) (hd : DrainInv b0 d s)
     (hk : ¬ (s.kind = .byte ∨ s.kind = .plain))
     (hfire : 1 ≤ s.faults.drop ∧ s.faults.drop ≤ d.ie - d.is) :
     ∃ s', Gen.Drain_drop d s = (.error (.user "drop"), s') ∧ s'.buf = s.buf ∧
       s'.log = dropEvents s.kind (((abs b0).drop d.is).take (d.ie - d.is)) ++ s.log := by
-  rw [tie_drain_drop d s (C10_forget_safe b0 d s hd).1 (DrainInv.rs_le_cap hd) (DrainInv.re_le_cap hd)]; exact C05_drain_drop b0 d s hd hk hfire
+  rw [tie_drain_drop d s (C10_forget_safe b0 d s hd).1 (DrainInv.rs_le_cap hd) (DrainInv.re_le_cap hd) hd.h4]; exact C05_drain_drop b0 d s hd hk hfire
 
 maybe theorem C20_drain_src (b0 : CB) (d : Drain) (s : Sys) (hd : DrainInv b0 d s) (hf : s.faults.drop = 0) :
     ∃ b', (Gen.Drain_drop d s).2.buf = b' ∧ b'.start = b0.start ∧
       (∀ i, i < d.rs → b'.items (phys b0.start b0.cap i) = b0.items (phys b0.start b0.cap i)) := by
-  rw [tie_drain_drop d s (C10_forget_safe b0 d s hd).1 (DrainInv.rs_le_cap hd) (DrainInv.re_le_cap hd)]; exact C20_drain b0 d s hd hf
+  rw [tie_drain_drop d s (C10_forget_safe b0 d s hd).1 (DrainInv.rs_le_cap hd) (DrainInv.re_le_cap hd) hd.h4]; exact C20_drain b0 d s hd hf
 
 maybe /-- **leak safety, on the translated constructor**: in the state `Drain::over_range` leaves behind — the
 state a forgotten drain leaves for good — the buffer satisfies the invariant and is empty -/
